@@ -1733,7 +1733,7 @@ func main() {
 	r := rng.New(*seed)
 	nSeq, nConc, maxN, nRebuild, nRetry, nPass := 1000, 1000, 5, 16, 300, 300
 	if *tier == "thorough" {
-		nSeq, nConc, maxN, nRebuild, nRetry, nPass = 20000, 20000, 6, 300, 4000, 4000
+		nSeq, nConc, maxN, nRebuild, nRetry, nPass = 20000, 20000, 6, 300, 3000, 2500
 	}
 	witnesses(cw)
 	// exhaustive release subsets, ascending release order, for 1..maxN caches (6 in the thorough tier);
